@@ -136,7 +136,10 @@ type In struct {
 	// Prop: the property whose predicates the Lean handler evaluates on the real answers
 	Prop     string            `json:"prop,omitempty"`
 	Features map[string]string `json:"features"`
-	Steps    []Step            `json:"steps"`
+	// Sibling: another ledger with overlapping accounts / references / metadata lives in the same
+	// bucket (so the store is not "alone in bucket" and every statement must scope by ledger)
+	Sibling bool   `json:"sibling,omitempty"`
+	Steps   []Step `json:"steps"`
 }
 
 type Out struct {
@@ -228,6 +231,39 @@ type runner struct {
 	name string
 }
 
+// populateSibling creates a second ledger in the same bucket and writes to the same accounts,
+// assets, reference and metadata keys the workloads use.
+func populateSibling(e *env, features map[string]string) error {
+	ctx := context.Background()
+	ledgerCounter++
+	name := fmt.Sprintf("sib%d", ledgerCounter)
+	cfg := ledger.NewDefaultConfiguration()
+	for k, v := range features {
+		cfg.Features = cfg.Features.With(k, v)
+	}
+	if err := e.sys.CreateLedger(ctx, name, cfg); err != nil {
+		return err
+	}
+	ctrl, err := e.sys.GetLedgerController(ctx, name)
+	if err != nil {
+		return err
+	}
+	r := &runner{e: e, ctx: ctx, ctrl: ctrl, name: name}
+	past := timeGrid[1]
+	for _, s := range []Step{
+		{Op: "tx", Postings: []jPosting{{Source: "world", Destination: "users:alice", Amount: "1000000", Asset: "EUR"}, {Source: "world", Destination: "bank", Amount: "500000", Asset: "USD/2"}}, Metadata: map[string]string{"k": "v"}, Reference: "r1", Timestamp: &past},
+		{Op: "tx", Postings: []jPosting{{Source: "world", Destination: "users:bob", Amount: "77777", Asset: "COIN"}, {Source: "world", Destination: "orders:1:pending", Amount: "9", Asset: "COIN"}}, Metadata: map[string]string{"tier": "gold"}, AccountMetadata: map[string]map[string]string{"users:bob": {"k": "sib"}}},
+		{Op: "saveMeta", Target: map[string]any{"account": "bank"}, Metadata: map[string]string{"tier": "sib", "zz": "1"}},
+		{Op: "revert", ID: 2, Force: true},
+	} {
+		st := s
+		if res := r.runOp(&st); res != "ok" {
+			return fmt.Errorf("sibling ledger: %s", res)
+		}
+	}
+	return nil
+}
+
 func newRunner(features map[string]string) (*runner, error) {
 	e, err := getEnv(1) // a fresh server per case: the logical clock restarts, so a replay allots the same dates
 	if err != nil {
@@ -248,6 +284,21 @@ func newRunner(features map[string]string) (*runner, error) {
 		return nil, fmt.Errorf("GetLedgerController: %w", err)
 	}
 	return &runner{e: e, ctx: ctx, ctrl: ctrl, name: name}, nil
+}
+
+// newRunnerFor: the runner of a case, after its sibling ledger (if any).
+func newRunnerFor(in *In) (*runner, error) {
+	if in.Sibling {
+		e, err := getEnv(1)
+		if err != nil {
+			return nil, err
+		}
+		if err := populateSibling(e, in.Features); err != nil {
+			return nil, err
+		}
+		e.cases = 0 // the case's own ledger lives on the same server
+	}
+	return newRunner(in.Features)
 }
 
 // runOp executes one write through the real controller; fills the dates the database allotted.
@@ -341,7 +392,7 @@ func targetTx(t map[string]any) uint64 {
 // runCase executes the steps; the write steps get their dates filled in.
 func runCase(in *In) Out {
 	out := Out{Results: []string{}, Answers: []any{}}
-	r, err := newRunner(in.Features)
+	r, err := newRunnerFor(in)
 	if err != nil {
 		out.Err = err.Error()
 		return out
